@@ -19,11 +19,17 @@ VARIABLE i
 JInit == i \in 1..Len(Recs)
 JNext == UNCHANGED i
 JSpec == JInit /\ [][JNext]_i
-Usable(r) == IF r.x.t \in {"index", "noarg"} THEN FALSE          \* an object that merely has __index__ is not an integer key
+\* (an object that merely has __index__ is not an integer: Domain rejects it for every native slot; as an object
+\*  key it has default comparison, as an object value it is an object like any other)
+Usable(r) == IF r.x.t = "noarg" THEN FALSE
              ELSE (IF r.role = "key" THEN KeyOutcome(r.code, r.x) ELSE ValOutcome(r.code, r.x)) # Rej
+\* a key that cannot be ordered against the stored keys (object-keyed families): the specification promises nothing
+\* about the outcome - a comparison, wherever one is made, raises TypeError - only that both implementations do alike
+Incomp(r) == r.x.t = "incomp"
 Want(r) ==
   LET u == Usable(r) IN
-  CASE r.cls = "lookup"  -> IF u THEN {"present", "absent"} ELSE {"absent"}
+  CASE Incomp(r)         -> {"TypeError", "ok", "present", "absent", "KeyError", "ValueError"}
+    [] r.cls = "lookup"  -> IF u THEN {"present", "absent"} ELSE {"absent"}
     \* removing is a write: an unusable key is rejected (TypeError) or reported absent (KeyError) -- by both alike
     [] r.cls = "delete"  -> IF u THEN {"ok", "KeyError"} ELSE {"KeyError", "TypeError"}
     [] r.cls = "discard" -> IF u THEN {"ok"} ELSE {"ok", "TypeError"}
@@ -38,7 +44,9 @@ Want(r) ==
 Why(r) ==
   IF r.c \notin Want(r) THEN "c-outcome"
   ELSE IF r.py \notin Want(r) THEN "py-outcome"
-  ELSE IF r.cls = "write" /\ ~Usable(r) /\ ~(r.unchanged_c /\ r.unchanged_py) THEN "rejected-write-changed-something"
+  ELSE IF Incomp(r) /\ r.c # r.py THEN "outcomes-differ"
+  ELSE IF Incomp(r) /\ r.c = "TypeError" /\ ~(r.unchanged_c /\ r.unchanged_py) THEN "failed-call-changed-something"
+  ELSE IF r.cls = "write" /\ ~Incomp(r) /\ ~Usable(r) /\ ~(r.unchanged_c /\ r.unchanged_py) THEN "rejected-write-changed-something"
   ELSE IF r.cls \in {"lookup", "bound"} /\ ~(r.unchanged_c /\ r.unchanged_py) THEN "read-changed-something"
   ELSE IF ~r.same_result THEN "results-differ"
   ELSE IF ~r.same_contents THEN "contents-differ"
